@@ -413,6 +413,8 @@ func zzRet[T any](name string) T { panic("spec only") }
 //@ ensures [cnt]   specIsData(msg) && result == nil ==> zzCalls("hsms.(*ConnectionMetrics).incDataMsgSend") == 1
 //@ ensures [sent1] zzCalls("hsms.(*ConnectionMetrics).incDataMsgSend") <= 1
 //@ ensures [drop]  zzCalls("hsms.(*connection).dropNotSelected") <= 1 && (zzCalls("hsms.(*connection).dropNotSelected") == 1 ==> result == ErrNotSelectedState && zzCalls("hsms.(transport).Write") == 0)
+//@ cover [written] result == nil && specIsData(msg)
+//@ cover [dropped] zzCalls("hsms.(*connection).dropNotSelected") == 1
 
 // specRejectErr: err is the typed error a peer Reject.req produces.
 func specIsRejectErr(err error) bool { _, ok := err.(*RejectError); return ok }
@@ -447,6 +449,10 @@ func specIsRejectErr(err error) bool { _, ok := err.(*RejectError); return ok }
 //@ ensures [reject]   zzCalls("hsms.(*ConnectionMetrics).incDataMsgInflight") == 1 && specIsRejectErr(result1) ==> zzCalls("hsms.(*ConnectionMetrics).incDataMsgErr") == 0
 //@ ensures [kind]     specIsData(msg) && msg.(*DataMessage).header[2]&0x80 != 0 && result1 == nil ==> specIsData(result0) && specRealMsg(result0)
 //@ ensures [reply]    result1 == nil && result0 != nil ==> zzCalls("hsms.(transport).Write") == 1 && zzCalls("hsms.(*ConnectionMetrics).incDataMsgErr") == 0
+//@ cover [gotreply] result1 == nil && result0 != nil
+//@ cover [refused]  result1 == ErrNotSelectedState && zzCalls("hsms.(transport).Write") == 0
+//@ cover [rejected] specIsRejectErr(result1) && zzCalls("hsms.(*ConnectionMetrics).incDataMsgInflight") == 1
+//@ cover [failed]   zzCalls("hsms.(*ConnectionMetrics).incDataMsgErr") == 1
 
 //@ func (*connection).sendNoReply
 //@ nosafety nil-deref nil-iface
@@ -556,6 +562,9 @@ func specBadData(stream, function byte, w bool, item secs2.Item) bool {
 //@ ensures [one]    zzCalls("hsms.(*connection).RouteReply") == 1 && zzRet[bool]("hsms.(*connection).RouteReply") ==> zzCalls("hsms.(*connection).RouteData") == 0
 //@ ensures [data]   zzCalls("hsms.(*connection).checkSessionID") == 0 && (len(frame) >= 10 && frame[4] == 0 && frame[5] == 0) &&
 //@                  !(zzCalls("hsms.(*connection).RouteReply") == 1 && zzRet[bool]("hsms.(*connection).RouteReply")) ==> zzCalls("hsms.(*connection).RouteData") == 1
+//@ cover [toreply] zzCalls("hsms.(*connection).RouteReply") == 1 && zzCalls("hsms.(*connection).RouteData") == 0
+//@ cover [todata]  zzCalls("hsms.(*connection).RouteData") == 1
+//@ cover [baddec]  zzCalls("hsms.(*ConnectionMetrics).incDecodeErr") == 1
 
 // ---- C06: reply correlation ----
 
